@@ -16,6 +16,13 @@ type Cond struct {
 	Val  bool
 	At   *ssa.BasicBlock
 	Step int // index into Path.Blocks of the block this condition terminates
+	// X, Y: for a comparison, its operands as the phis stood when the branch was taken (Path.Phi keeps only the last
+	// choice of each phi: on a path that goes round a loop twice, resolving an operand afterwards gives the value of
+	// the last iteration)
+	X, Y ssa.Value
+	// Baked: V is the constant that the inlined callee returned for the tested result on this path (Val is the value
+	// the branch taken requires of it); Term is still the term of the original condition
+	Baked bool
 }
 
 // Path is one acyclic (each CFG edge at most EdgeVisits times) path through a region.
@@ -158,7 +165,9 @@ func (p *Path) consistent() bool {
 				}
 				v0 = u.X
 			}
-			if k, ok := p.ResolveMemless(v0).(*ssa.Const); ok && k.Value != nil && k.Value.Kind() == constant.Bool {
+			// (baked by seeThroughResults when the occurrence was spliced in: Rets is keyed by the call instruction and
+			// must not be consulted here, a later occurrence of the same call may have overwritten it)
+			if k, ok := v0.(*ssa.Const); ok && cd.Baked && k.Value != nil && k.Value.Kind() == constant.Bool {
 				if constant.BoolVal(k.Value) != cd.Val {
 					return false
 				}
@@ -471,7 +480,11 @@ func EnumPaths(fn *ssa.Function, opts PathOpts) ([]*Path, error) {
 			}
 			take := func(q *Path, branch bool) {
 				posVal := branch != neg
-				q.Conds = append(q.Conds, Cond{Term: term, V: cv, Val: posVal, At: b, Step: len(q.Blocks) - 1})
+				nc := Cond{Term: term, V: cv, Val: posVal, At: b, Step: len(q.Blocks) - 1}
+				if bo, ok := cv.(*ssa.BinOp); ok {
+					nc.X, nc.Y = q.Resolve(bo.X), q.Resolve(bo.Y)
+				}
+				q.Conds = append(q.Conds, nc)
 				q.live[term] = posVal
 				if isEq {
 					bo := cv.(*ssa.BinOp)
@@ -629,10 +642,14 @@ func ExpandInline(paths []*Path, pick func(*Call) *ssa.Function, enum func(*ssa.
 				continue
 			}
 			// step of the call in the caller's block sequence
-			step := -1
-			for bi, b := range p.Blocks {
-				if b == pi.In.Block() {
-					step = bi
+			step := topStep(p, flat, k)
+			// the next time the path runs this same call (next loop iteration): the conditions in between test this occurrence's results
+			nextStep := int(^uint(0) >> 1)
+			for j := k + 1; j < len(flat); j++ {
+				if flat[j].In == pi.In && !flat[j].Deferred {
+					if ns := topStep(p, flat, j); ns > step {
+						nextStep = ns
+					}
 					break
 				}
 			}
@@ -694,7 +711,9 @@ func ExpandInline(paths []*Path, pick func(*Call) *ssa.Function, enum func(*ssa.
 					np.Conds = append(np.Conds, Cond{Term: t, V: cd.V, Val: cd.Val, At: cd.At, Step: step})
 				}
 				np.Conds = append(np.Conds, p.Conds[ins:]...)
-				np.seeThroughResults()
+				if cv := cl.Value(); cv != nil && pi.In.Parent() == p.Fn {
+					np.seeThroughResults(cv, np.Rets[cv], step, nextStep)
+				}
 				if !np.consistent() {
 					continue
 				}
@@ -713,10 +732,111 @@ func ExpandInline(paths []*Path, pick func(*Call) *ssa.Function, enum func(*ssa.
 	return out, nil
 }
 
-// seeThroughResults rewrites a condition that tests the boolean result of an inlined callee (if w.registered(s) { … })
-// into the expression that callee returned on this path (w.local.Get(s.ID()) != nil), keeping the branch taken.
-func (p *Path) seeThroughResults() {
+// nonNegative: v is provably >= 0: a non-negative constant, a length, the index of a range loop (φ(-1, i+1) + 1), sums
+// and φs of such values.
+func nonNegative(v ssa.Value, depth int) bool {
+	if depth > 6 {
+		return false
+	}
+	switch x := v.(type) {
+	case *ssa.Const:
+		return x.Value != nil && x.Value.Kind() == constant.Int && constant.Sign(x.Value) >= 0
+	case *ssa.Call:
+		if b, ok := x.Call.Value.(*ssa.Builtin); ok && (b.Name() == "len" || b.Name() == "cap") {
+			return true
+		}
+	case *ssa.Convert:
+		return nonNegative(x.X, depth+1)
+	case *ssa.Phi:
+		for _, e := range x.Edges {
+			if e == ssa.Value(x) {
+				continue
+			}
+			if !nonNegative(e, depth+1) {
+				return false
+			}
+		}
+		return true
+	case *ssa.BinOp:
+		if x.Op != token.ADD {
+			return false
+		}
+		// range index: φ(-1, this) + 1
+		if k, ok := x.Y.(*ssa.Const); ok && k.Value != nil && k.Value.Kind() == constant.Int && constant.Sign(k.Value) > 0 {
+			if ph, ok := x.X.(*ssa.Phi); ok {
+				all := true
+				for _, e := range ph.Edges {
+					if e == ssa.Value(x) {
+						continue
+					}
+					if ke, ok := e.(*ssa.Const); ok && ke.Value != nil && ke.Value.Kind() == constant.Int {
+						if s, _ := constant.Int64Val(constant.BinaryOp(ke.Value, token.ADD, k.Value)); s >= 0 {
+							continue
+						}
+					}
+					all = false
+				}
+				if all {
+					return true
+				}
+			}
+		}
+		return nonNegative(x.X, depth+1) && nonNegative(x.Y, depth+1)
+	}
+	return false
+}
+
+// topStep returns the index into p.Blocks of the block occurrence in which flat[k] runs, for an instruction of the
+// path's own function (blocks repeat on a path that goes round a loop: the first occurrence is not always the one);
+// -1 for instructions of inlined callees and replayed deferred calls.
+func topStep(p *Path, flat []PathInstr, k int) int {
+	if flat[k].In.Parent() != p.Fn || flat[k].Deferred {
+		return -1
+	}
+	bi, last := 0, -1
+	for j := 0; j <= k; j++ {
+		in := flat[j].In
+		if in.Parent() != p.Fn || flat[j].Deferred {
+			continue
+		}
+		idx := InstrIndex(in)
+		if bi < len(p.Blocks) && p.Blocks[bi] == in.Block() && idx > last {
+			last = idx
+			continue
+		}
+		// a new block occurrence
+		nb := bi + 1
+		for nb < len(p.Blocks) && p.Blocks[nb] != in.Block() {
+			nb++
+		}
+		if nb >= len(p.Blocks) {
+			// not found ahead (should not happen): fall back to the first occurrence
+			for fb, b := range p.Blocks {
+				if b == in.Block() {
+					return fb
+				}
+			}
+			return -1
+		}
+		bi, last = nb, idx
+	}
+	return bi
+}
+
+// seeThroughResults rewrites the conditions of the path's own function that test a result of the inlined call cv
+// (if w.registered(s) { … }) — those met from this occurrence of the call (block index step) up to its next occurrence
+// on the path — into what the callee returned on the spliced path (rs): the expression (w.local.Get(s.ID()) != nil),
+// keeping the branch taken, or the constant, which consistent() then compares with the branch taken. The rewriting is
+// done when the occurrence is spliced in, because Rets is keyed by the call instruction and a later occurrence of the
+// same call (next loop iteration) overwrites it.
+func (p *Path) seeThroughResults(cv ssa.Value, rs []ssa.Value, step, nextStep int) {
+	if step < 0 || len(rs) == 0 {
+		return
+	}
 	for i, cd := range p.Conds {
+		if cd.At == nil || cd.At.Parent() != p.Fn || cd.Step < step || cd.Step >= nextStep {
+			continue
+		}
 		v0, nots := cd.V, 0
 		for {
 			u, ok := v0.(*ssa.UnOp)
@@ -726,21 +846,64 @@ func (p *Path) seeThroughResults() {
 			v0 = u.X
 			nots++
 		}
-		switch v0.(type) {
-		case *ssa.Call, *ssa.Extract:
-		default:
+		resultOf := func(v ssa.Value) ssa.Value {
+			switch x := v.(type) {
+			case *ssa.Call:
+				if ssa.Value(x) == cv && len(rs) == 1 {
+					return rs[0]
+				}
+			case *ssa.Extract:
+				if x.Tuple == cv && x.Index < len(rs) {
+					return rs[x.Index]
+				}
+			}
+			return nil
+		}
+		r := resultOf(v0)
+		if r == nil {
+			// a comparison of a result with a constant (if idx >= 0 { … } after idx, ok := find(…)): decided when the
+			// callee returned a constant on the spliced path (return -1, found)
+			if bo, ok := v0.(*ssa.BinOp); ok {
+				switch bo.Op {
+				case token.EQL, token.NEQ, token.LSS, token.LEQ, token.GTR, token.GEQ:
+					x, y := bo.X, bo.Y
+					touched := false
+					if rx := resultOf(x); rx != nil {
+						x, touched = p.Resolve(rx), true
+					}
+					if ry := resultOf(y); ry != nil {
+						y, touched = p.Resolve(ry), true
+					}
+					kx, okx := x.(*ssa.Const)
+					ky, oky := y.(*ssa.Const)
+					// a loop index (or a length) compared with zero
+					if touched && oky && !okx && ky.Value != nil && ky.Value.Kind() == constant.Int && constant.Sign(ky.Value) == 0 && nonNegative(x, 0) && (bo.Op == token.GEQ || bo.Op == token.LSS) {
+						_, neg := splitNeg(p.Term(cd.V))
+						branch := cd.Val != neg
+						v0val := branch != (nots%2 == 1)
+						p.Conds[i] = Cond{Term: cd.Term, V: ssa.NewConst(constant.MakeBool(bo.Op == token.GEQ), bo.Type()), Val: v0val, At: cd.At, Step: cd.Step, Baked: true}
+						continue
+					}
+					if touched && okx && oky && kx.Value != nil && ky.Value != nil && kx.Value.Kind() == constant.Int && ky.Value.Kind() == constant.Int {
+						res := constant.Compare(kx.Value, bo.Op, ky.Value)
+						_, neg := splitNeg(p.Term(cd.V))
+						branch := cd.Val != neg
+						v0val := branch != (nots%2 == 1)
+						p.Conds[i] = Cond{Term: cd.Term, V: ssa.NewConst(constant.MakeBool(res), bo.Type()), Val: v0val, At: cd.At, Step: cd.Step, Baked: true}
+					}
+				}
+			}
 			continue
 		}
-		r := p.Resolve(v0)
-		if r == v0 {
-			continue
-		}
-		if _, isConst := r.(*ssa.Const); isConst {
-			continue // judged by consistent()
-		}
+		r = p.Resolve(r)
 		_, neg := splitNeg(p.Term(cd.V))
 		branch := cd.Val != neg
 		v0val := branch != (nots%2 == 1)
+		if _, isConst := r.(*ssa.Const); isConst {
+			// keep the term (rules look conditions up by it); the value is now the constant itself
+			p.Conds[i] = Cond{Term: cd.Term, V: r, Val: v0val, At: cd.At, Step: cd.Step, Baked: true}
+			continue
+		}
 		t, neg2 := splitNeg(TermSubst(r, p.Phi, p.Params))
 		p.Conds[i] = Cond{Term: t, V: r, Val: v0val != neg2, At: cd.At, Step: cd.Step}
 	}
